@@ -62,6 +62,10 @@ class BadRepr:
 class OnlyStr:
     def __repr__(self): raise RuntimeError("r")
     def __str__(self): return "onlystr"
+class Mixin: pass
+class MixinArgs:
+    def __init__(self, *a): self.a = a
+class ModMixin(Mixin, Exception): pass
 class StrSub(str): pass
 class Color(enum.IntEnum):
     RED = 1
@@ -71,7 +75,9 @@ def make_locals():
     class LocalSubTwoPos(TwoPos): pass
     class LocalBase(BaseException): pass
     class LocalObj: pass
-    return Local, LocalSubVal, LocalSubTwoPos, LocalBase, LocalObj
+    class LocalMixin(Mixin, Exception): pass
+    class LocalMixinArgs(MixinArgs, Exception): pass
+    return Local, LocalSubVal, LocalSubTwoPos, LocalBase, LocalObj, LocalMixin, LocalMixinArgs
 def shadow_fn(*a): raise SystemError("trap: a resolved non-exception object was CALLED")
 shadow_inst = 5
 '''
@@ -88,7 +94,7 @@ def setup(opts):
     ZOO.__dict__["enum"] = enum
     sys.modules[ZOO_NAME] = ZOO
     exec(compile(ZOO_SRC, "<excser_zoo>", "exec"), ZOO.__dict__)
-    Local, LocalSubVal, LocalSubTwoPos, LocalBase, LOCAL_OBJ = ZOO.make_locals()
+    Local, LocalSubVal, LocalSubTwoPos, LocalBase, LOCAL_OBJ, LocalMixin, LocalMixinArgs = ZOO.make_locals()
     import builtins
     for n in ("ValueError KeyError OSError FileNotFoundError KeyboardInterrupt SystemExit StopIteration GeneratorExit "
               "AssertionError ImportError ZeroDivisionError RuntimeError Exception BaseException UnicodeDecodeError "
@@ -100,6 +106,8 @@ def setup(opts):
     CLASSES.update({
         "Nested": ZOO.Outer.Nested, "Deep": ZOO.Outer.Inner.Deep,
         "Local": Local, "LocalSubVal": LocalSubVal, "LocalSubTwoPos": LocalSubTwoPos, "LocalBase": LocalBase,
+        "LocalMixin": LocalMixin, "LocalMixinArgs": LocalMixinArgs, "ModMixin": ZOO.ModMixin,
+        "DynMixin": type("DynMixin", (ZOO.Mixin, Exception), {"__module__": "nowhere.mod"}),
         "Dyn": type("Dyn", (Exception,), {"__module__": "nowhere.mod"}),
         "DynHere": type("DynHere", (ValueError,), {"__module__": ZOO_NAME}),
         "DynK": type("DynK", (KeyError,), {"__module__": ZOO_NAME}),
@@ -348,7 +356,9 @@ def measure_node(e):
         if target is not None and n["resolve"] in ("RSelf", "ROther"):
             loaded = tuple(m["loaded_" + enc] for m in ms)
             acc, inst = tryf(lambda: target(*loaded))
-            rec = bool(acc and deep_eq(tuple(inst.args), loaded))
+            # reconstructible: the constructor returns an instance of exactly that class (OSError(errno, ..) picks a
+            # subclass by errno) and keeps the args
+            rec = bool(acc and type(inst) is target and deep_eq(tuple(inst.args), loaded))
         n["accepts_" + enc], n["recon_" + enc] = acc, rec
     n["exc_rt_json"] = tryf(lambda: json.loads(json.dumps(e)))[0]
     ok, back = tryf(lambda: pickle.loads(pickle.dumps(e)))
@@ -363,7 +373,7 @@ def measure_node(e):
         okj = bool(okc and tryf(lambda: json.loads(json.dumps(inst)))[0] and inst)
         okp, back = tryf(lambda: pickle.loads(pickle.dumps(inst))) if okc else (False, None)
         okp = bool(okp and inst)
-        mro.append(dict(ok_json=okj, ok_pickle=okp, is_exc=isinstance(inst, BaseException) if okc else True,
+        mro.append(dict(ok_json=okj, ok_pickle=okp, is_exc=issubclass(sup, BaseException),
                         loaded=rel_args(back.args, args, ms) if okp and isinstance(back, BaseException) else "LMismatch"))
     n["mro"] = mro
     n["mro_classes"] = [c for c in getmro(cls)][:len(mro)]
@@ -375,7 +385,7 @@ def measure_node(e):
     # facts for the direct oracle
     okc, inst = tryf(lambda: cls(*args))
     n["own_ctor_ok"] = okc
-    n["own_recon"] = bool(okc and deep_eq(tuple(inst.args), args))
+    n["own_recon"] = bool(okc and type(inst) is cls and deep_eq(tuple(inst.args), args))
     n["importable"] = n["has_module"] and n["resolve"] == "RSelf"
     return n
 
@@ -407,6 +417,8 @@ def abstract(l, i, nodes, links, enc, depth=0):
         named = (n["qualname"] in l.args[0]) if n["resolve"] == "RSelf" else True
     elif n["resolve"] == "ROther" and t is resolve(cls)[1]:
         k = "KOther"
+    elif isinstance(l, cls):
+        k, named = "KOrig", True       # the class' own constructor / reduce picked a subclass (OSError by errno)
     else:
         k = "KUnknown"
     if a is None:
